@@ -97,9 +97,16 @@ func genC03(r *Rng, tier string, emit func(Case)) {
 		}
 		e("csub", "w"+itoa(w), hs(valid), hs(pre+":"+symsToString(m)))
 		// replacement by a non-charset byte / other-case letter / colon
-		if r.Intn(5) == 0 {
+		if r.Intn(3) == 0 {
 			b := []byte(valid)
-			b[len(pre)+1+r.Intn(len(syms))] = []byte("bio1:Q -")[r.Intn(8)]
+			k := len(pre) + 1 + r.Intn(len(syms))
+			for j := len(pre) + 1; j < len(b); j++ { // prefer a position holding symbol 0 ('q')
+				if b[j] == 'q' && r.Intn(3) > 0 {
+					k = j
+					break
+				}
+			}
+			b[k] = []byte("bio1:Q -!~")[r.Intn(10)]
 			e("csub", "foreign", hs(valid), hx(b))
 		}
 		// chosen syndrome: xor a pattern into the 8 checksum symbols
@@ -154,6 +161,23 @@ func genC03(r *Rng, tier string, emit func(Case)) {
 				bm[p] ^= byte(1 + r.Intn(31))
 			}
 			e("bsub", "w"+itoa(w), hs(bvalid), hs(string(hrp)+"1"+symsToString(bm)))
+			// replacement by characters outside the bech32 alphabet; preferably where the symbol is 0 ('q'), the value a
+			// sloppy reverse table would give to any unknown character
+			fb := []byte(bvalid)
+			dpos := []int{}
+			for j := len(hrp) + 1; j < len(fb); j++ {
+				if fb[j] == 'q' {
+					dpos = append(dpos, j)
+				}
+			}
+			if len(dpos) == 0 || r.Intn(3) == 0 {
+				dpos = []int{len(hrp) + 1 + r.Intn(len(bs))}
+			}
+			nf := 1 + r.Intn(4)
+			for j := 0; j < nf && j < len(dpos); j++ {
+				fb[dpos[j]] = []byte("bio!B~2#")[r.Intn(7)]
+			}
+			e("bsub", "foreign", hs(bvalid), hx(fb))
 			bc := append([]byte{}, bs...)
 			pat := uint32(r.U64()) & 0x3fffffff
 			if r.Bool() {
